@@ -8,6 +8,7 @@ import (
 	"net/http"
 	"os"
 	"path/filepath"
+	"strings"
 
 	dshelp "github.com/ipfs/boxo/datastore/dshelp"
 	pb "github.com/ipfs/boxo/filestore/pb"
@@ -327,6 +328,13 @@ func (f *FileManager) putTo(ctx context.Context, b *posinfo.FilestoreNode, to pu
 		p, err := filepath.Rel(f.root, b.PosInfo.FullPath)
 		if err != nil {
 			return err
+		}
+		// filepath.HasPrefix is a plain string comparison: it also accepts
+		// siblings of the root that share its name as a prefix
+		// (/root-other/f) and paths that leave the root through ".."
+		// (/root/../f). Check the relative path by components.
+		if p == ".." || strings.HasPrefix(p, ".."+string(filepath.Separator)) {
+			return fmt.Errorf("cannot add filestore references outside ipfs root (%s)", f.root)
 		}
 
 		ps := filepath.ToSlash(p)
